@@ -21,8 +21,8 @@ KEYS = ["sorted", "odd", "uhf", "mult_ok", "conv", "sp2", "exc", "nstates", "hom
 
 
 def nfaults(q):
-    return sum([not q["sorted"], (not q["uhf"]) and q["odd"], q["uhf"] and not q["mult_ok"], q["uhf"] and q["sp2"], q["uhf"] and q["conv"] == 2, q["uhf"] and q["exc"] != "none",
-                q["exc"] != "none" and not q["nstates"], q["exc"] == "bogus", q["exc"] == "rpa" and not q["homog"], q["exc"] == "cis" and not q["homog"] and (q["active"] > 0 or q["com"] != "nomd"), q["active"] > 0 and q["exc"] == "none", q["com"] == "bogus"])
+    return sum([q["sorted"] != "ok", (not q["uhf"]) and q["odd"], q["uhf"] and not q["mult_ok"], q["uhf"] and q["sp2"], q["uhf"] and q["conv"] == 2, q["uhf"] and q["exc"] != "none",
+                q["exc"] != "none" and not q["nstates"], q["exc"] == "bogus", q["exc"] == "rpa" and not q["homog"], q["exc"] == "cis" and not q["homog"] and (q["active"] > 0 or q["com"] != "nomd"), q["active"] > 0 and q["exc"] == "none", q["com"] in ("bogus", "ang", "lin", "", "near")])
 
 
 def main(tier):
@@ -36,7 +36,7 @@ def main(tier):
         elif r.violated:
             rep.violation("model_property_violated", {"violated": r.violated, "cex": r.counterexample[-1:]}, model=True)
         out = os.path.join(scratch, "guards.ndjson")
-        g = tlc.run("GuardsGen", dict(spec="Spec", invariants=["Collect"], postcondition="Export"), workers=1, env={"OUT_FILE": out}, scratch=scratch)
+        g = tlc.run("GuardsGen", dict(spec="Spec", constants=dict(ExportMod=41 if tier == "quick" else 3), invariants=["Collect"], postcondition="Export"), workers=1, env={"OUT_FILE": out}, scratch=scratch, timeout=3000)
         rows = tlc.read_ndjson(out)
         # an irrelevant mult_ok (RHF) / nstates (no excited states) coordinate does not make a different request
         canon = {}
@@ -52,7 +52,14 @@ def main(tier):
         if tier == "quick":
             acc = [x for x in single if nfaults(x["req"]) == 0]
             one = [x for x in single if nfaults(x["req"]) == 1]
-            pick = rng.sample(one, min(len(one), 110)) + rng.sample(acc, min(len(acc), 40)) + rng.sample([x for x in rows if nfaults(x["req"]) > 1], 40)
+            # one canonical row per value of every fault coordinate (everything else valid and default) is always replayed
+            default = dict(sorted="ok", odd=False, uhf=False, mult_ok=True, conv=1, sp2=False, exc="none", nstates=True, homog=True, active=0, com="nomd")
+            variants = [dict(sorted=v) for v in ("reversed", "pad_front", "pad_middle")] + [dict(com=v) for v in ("bogus", "ang", "lin", "", "near")] + [dict(odd=True), dict(uhf=True, mult_ok=False),
+                        dict(uhf=True, sp2=True), dict(uhf=True, conv=2), dict(uhf=True, exc="cis"), dict(exc="cis", nstates=False), dict(exc="bogus"), dict(exc="rpa", homog=False), dict(active=1),
+                        dict(exc="cis", homog=False, active=1), dict(sorted="pad_front", homog=False), dict(com="ang", uhf=True)]
+            bykey = {tuple(x["req"][k] for k in KEYS): x for x in rows}
+            must = [bykey[tuple(dict(default, **v)[k] for k in KEYS)] for v in variants if tuple(dict(default, **v)[k] for k in KEYS) in bykey]
+            pick = must + rng.sample(one, min(len(one), 90)) + rng.sample(acc, min(len(acc), 40)) + rng.sample([x for x in rows if nfaults(x["req"]) > 1], 40)
         else:
             pick = rows
         res = common.run_forked(pick, guards_driver.run_row, timeout=900)
@@ -111,14 +118,14 @@ def main(tier):
             "traces_validated_against_impl": len(pick),
             "rows_conforming": n_ok,
             "samples": samples or [{"note": "none"}],
-            "table_rows": len(rows),
+            "table_rows": r.distinct, "rows_exported": len(rows),
             "rows_replayed": len(pick),
             "exception_class_differs_from_table": cls_mismatch[:10],
             "stress_cases": stress,
             "evaluations": len(pick) + len(stress),
             "distinct_nontrivial": len([x for x in pick if nfaults(x["req"]) >= 1]),
             "rule": "rows of the decision table exported by TLC (canonicalised over don't-care coordinates); non-trivial = at least one violated precondition; quick = sample of single-fault, accepted and multi-fault rows by VERIF_SEED",
-            "exhaustive": tier == "thorough",
+            "exhaustive": False,
         }
         return rep.finish(cov, assumptions=["malformed variants are derived from two valid base batches (2 x H2O, H2O + CH4)", "exception classes are recorded, only raised-vs-returned is judged",
                                             "guards on options outside the listed preconditions (do_all_forces, normal modes, XL/FSSH constructors) are not in the table"])
